@@ -61,6 +61,7 @@ Proof.
 Qed.
 
 Ltac acc_arith' := sat_bools; rewrite ?N2Nat.id in *; sat_consts; lia.
+Ltac acc_arith ::= acc_arith'.
 
 (** a counted loop on the spine: the bound of the body is synthesised *)
 Ltac acc_loop :=
@@ -93,7 +94,27 @@ Ltac acc_div :=
       rewrite rem_w_ok by (sat_bools; sat_consts; lia); cbn [lift bind]
   end.
 
-Ltac acc_all ::= repeat first [acc_div | acc_step | acc_loop].
+(** a call the stepper does not know: unfold it (never a loop) *)
+Ltac head_of t := lazymatch t with ?f _ => head_of f | _ => t end.
+Ltac acc_unfold :=
+  lazymatch goal with
+  | |- acc _ _ (bind ?c _) _ _ =>
+      let h := head_of c in
+      lazymatch h with
+      | @rd_n => fail
+      | @bind => fail
+      | _ => unfold h
+      end
+  | |- acc _ _ ?c _ _ =>
+      let h := head_of c in
+      lazymatch h with
+      | @rd_n => fail
+      | @bind => fail
+      | _ => unfold h
+      end
+  end.
+
+Ltac acc_all ::= repeat first [acc_div | acc_step | acc_loop | acc_unfold].
 
 (** stsc: the second loop touches no stream; one step per entry *)
 Lemma bnd_stsc_fill es sid : bnd (stsc_fill es sid) (lenN es) 0.
